@@ -6,6 +6,7 @@ Everything random derives from one PRNG seeded by VERIF_SEED.
 """
 import hashlib
 import json
+import math
 import os
 import random
 import re
@@ -50,6 +51,8 @@ def q(x):
     """exact rational literal of a float / Fraction / int, in Q scope"""
     if isinstance(x, bool):
         raise TypeError("bool is not a number here")
+    if isinstance(x, float) and not math.isfinite(x):
+        x = Fraction(-987654321)          # nan / inf observed on the implementation: a sentinel no model value equals
     f = Fraction(x) if not isinstance(x, Fraction) else x
     n, d = f.numerator, f.denominator
     if n < 0:
